@@ -4,6 +4,8 @@ import (
 	_ "google.golang.org/protobuf/verifmc/checks/c01"
 	_ "google.golang.org/protobuf/verifmc/checks/c02"
 	_ "google.golang.org/protobuf/verifmc/checks/c03"
+	_ "google.golang.org/protobuf/verifmc/checks/c06"
 	_ "google.golang.org/protobuf/verifmc/checks/c07"
+	_ "google.golang.org/protobuf/verifmc/checks/c16"
 	_ "google.golang.org/protobuf/verifmc/checks/c30"
 )
